@@ -59,7 +59,7 @@ def gen_case(seed, idx):
     case = {"idx": idx, "world": w, "place": place, "refusal": refusal, "options": opts,
             "cwd": rng.choice(["proj", "proj", "root", "elsewhere"]),
             "pages": rng.random() < 0.5, "copy_subdir": rng.random() < 0.5,
-            "copy_outside": rng.choice([None, None, "abs", "rel_existing"]), "two_src": rng.random() < 0.3,
+            "copy_outside": rng.choice([None, None, "abs", "rel_existing"]), "two_src": rng.random() < 0.3, "page_symlink": rng.random() < 0.35,
             "media": rng.choice([None, "ok", "missing"]), "css": rng.random() < 0.4,
             "favicon": rng.random() < 0.3, "mathjax": rng.random() < 0.3, "extra_ft": rng.random() < 0.3,
             "graph_dir": rng.choice([None, "in", "out", "out_abs"]) if opts["graph"] else None,
@@ -191,6 +191,12 @@ def build(case, seed, root):
         files["proj/pages/sub/assets/img.png"] = "png"
         files["proj/pages/sub/assets/deeper/x.txt"] = "x"
         files["proj/pages/sub/plain.txt"] = "plain"
+        if case.get("page_symlink"):
+            # a page sub-directory that is a symlink to a directory two levels up, outside page_dir
+            files["apisrc/index.md"] = "title: Api\n\nApi pages kept elsewhere\n"
+            files["apisrc/detail.md"] = "title: Detail\n\nDetail\n"
+            files["apisrc/raw.dat"] = "raw"
+            files["proj/pages/apilink"] = {"symlink": "../../apisrc"}
         if case.get("copy_subdir"):
             opts["copy_subdir"] = ["assets", "nonexistent_subdir"]
     if case.get("media") == "ok":
@@ -505,7 +511,7 @@ def case_candidates(case):
             c = copy.deepcopy(case)
             c["world"] = w
             yield desc, c
-    for k in ("pages", "copy_subdir", "css", "favicon", "mathjax", "extra_ft"):
+    for k in ("pages", "copy_subdir", "css", "favicon", "mathjax", "extra_ft", "page_symlink", "two_src"):
         if case.get(k):
             c = copy.deepcopy(case)
             c[k] = False
